@@ -898,7 +898,7 @@ pub fn rs_hankel_profile(tier: Tier, jobs: &mut Vec<Job>) {
         if t < 3 {
             continue;
         }
-        let quick_pick = matches!(sy.total(), 24 | 40) || sy.total() == 2178;
+        let quick_pick = matches!(sy.total(), 12 | 24 | 40) || sy.total() == 2178;
         if tier == Tier::Quick && !quick_pick {
             continue;
         }
